@@ -146,6 +146,20 @@ func (p panFmtT) Format(s fmt.State, verb rune) { fmt.Fprint(s, "part"); panic(p
 func (p panGoT) GoString() string               { panic(p.pl) }
 func (p panPayT) String() string                { panic("inner " + p.s) }
 func (m safeMsgT) SafeMessage() string          { return "const-message" }
+
+// fmtSPT is a plain fmt.Formatter that uses redact's printer when it is handed one (as error libraries do): under
+// Unsafe() the SafeFormatter interface is not dispatched, so this is the only way to reach the nested printer there.
+type fmtSPT struct{ s string }
+
+func (f fmtSPT) Format(st fmt.State, verb rune) {
+	if sp, ok := st.(redact.SafePrinter); ok {
+		sp.Printf("%s:\n%s", f.s, f.s)
+		sp.Print("\n", f.s)
+		return
+	}
+	fmt.Fprintf(st, "%s:\n%s\n%s", f.s, f.s, f.s)
+}
+
 func (f safeFmtT) SafeFormat(p redact.SafePrinter, verb rune) {
 	p.SafeString(redact.SafeString(f.pub))
 	p.SafeRune('=')
@@ -537,6 +551,7 @@ func universe() []Val {
 		return redact.Unsafe(redact.RedactableString(secPlain[v] + mStart + secPlain[1-v] + mEnd))
 	}))
 	add(o("Unsafe(SafeFormatter)", func(v int) interface{} { return redact.Unsafe(safeFmtT{secPlain[v], secStr[v]}) }))
+	add(o("Unsafe(Formatter using its fmt.State as SafePrinter)", func(v int) interface{} { return redact.Unsafe(fmtSPT{secStrLF[v]}) }))
 	add(ow("Unsafe(nil)", func(v int) interface{} { return redact.Unsafe(nil) }))
 	add(o("RedactableString", func(v int) interface{} {
 		return redact.RedactableString("pub " + mStart + string(Esc([]byte(secStr[v]))) + mEnd + "\n" + mStart + secPlain[v] + mEnd + " end")
